@@ -55,8 +55,14 @@ ASSUMPTIONS = ["threading.Lock of CPython is a correct mutex (it protects the mo
                "thread schedules are those the OS/GIL produced with yields injected; not all interleavings are explored"]
 BUDGET = {"quick": 30, "thorough": 420}
 FLOORS = {
-    "quick": {"evaluations": 1, "distinct_nontrivial": 1},
-    "thorough": {"evaluations": 1, "distinct_nontrivial": 1},
+    "quick": {"evaluations": 1000, "distinct_nontrivial": 1000,
+              "counters": {"copies_made": 2800, "held_pair_checks": 38000, "separate_lock_checks": 7000, "free_checks": 18000,
+                           "copies_made_while_held": 120, "thread_cases": 150, "critical_sections": 150000,
+                           "handovers": 20000, "max_occupancy_checks": 300},
+              "sets": {"interleavings": 150}},
+    "thorough": {"evaluations": 1000, "distinct_nontrivial": 1000,
+                 "counters": {"copies_made": 2800, "held_pair_checks": 38000, "thread_cases": 150},
+                 "sets": {"interleavings": 150}},
 }
 EXHAUSTIVE_SPACE = ("deterministic pairwise exclusion checks for every combination of 13 token kinds x 10 copy methods x "
                     "{chain, star} x 1..6 copies (all ordered member pairs, same thread and other thread); the thread "
